@@ -131,6 +131,11 @@ inline std::vector<LineMut> gen_line_muts(Cat &C, const std::vector<std::string>
 			for (size_t j = 0; j + 1 < T.size(); j++) {      // the last token is the text after the last delimiter
 				std::string f = T[j].text, role;
 				auto with = [&](const std::string &nf) { std::vector<Tok> T2 = T; T2[j].text = nf; return join_fields(T2); };
+				if (f.empty() && j > 0 && T[j - 1].delim == '|' && T[j].delim == '^') {
+					// "crs|r|<here>^": text after the last delimiter of the nested record, ignored by its field parser (equivalent representation)
+					if (full) push((int)j, tag + ".trailer", "append-after-last-delimiter", f, with("x"), false);
+					continue;
+				}
 				if (is_tag(f) || (f.size() >= 3 && f.compare(0, 2, "ID") == 0 && is_dec(f.substr(2)))) {
 					if (is_tag(f)) tag = f;
 					push((int)j, f.compare(0, 2, "ID") == 0 ? tag + ".idtag" : tag + ".tag", "corrupt", f, with(f + "x"), true);
@@ -145,6 +150,7 @@ inline std::vector<LineMut> gen_line_muts(Cat &C, const std::vector<std::string>
 				}
 				if (parse62(f, v) && f.find_first_not_of("0123456789ABCDEFGHIJKLMNOPQRSTUVWXYZabcdefghijklmnopqrstuvwxyz-") == std::string::npos && !(tag == "pub" && j <= 3)) {
 					std::string cls = vclass(C, v); role = tag + "." + cls;
+					if (tag == "crs" || tag == "crd") role = tag + (cls == "bit" ? ".b" : C.qr ? ".r" : ".r");
 					std::vector<VMut> VM = value_muts(C, cls, v, full, ni_qr);
 					for (size_t i = 0; i < VM.size(); i++) {
 						if (!full && heavy(proto) && ((rot++) % 3) != 0) continue;      // quick: every third (field, mutation) pair, rotating
